@@ -248,6 +248,33 @@ type c18Expect struct {
 	OK     []c18V // the allowed answers when Err is false
 	Sat    []c18V // every version satisfying the query (for diagnostics and the non-trivial rule)
 	TopOut bool   // the query excludes the overall highest version although something satisfies it
+	pool   []c18V // the versions the query ran over
+}
+
+// c18ReferenceRange is the dependency-resolution rule: the range must parse, and the answer is a version of pool
+// satisfying it with no strictly higher satisfying version; an error if there is none.
+func c18ReferenceRange(pool []c18V, q string) c18Expect {
+	ex := c18Expect{pool: pool}
+	c, err := semver.NewConstraint(q)
+	if err != nil {
+		ex.Class = "invalid-constraint"
+		ex.Err = true
+		return ex
+	}
+	ex.Class = "constraint"
+	for _, v := range pool {
+		if c.Check(v.V) {
+			ex.Sat = append(ex.Sat, v)
+		}
+	}
+	if len(ex.Sat) == 0 {
+		ex.Err = true
+		return ex
+	}
+	ex.OK = c18Maximal(ex.Sat)
+	all := c18Maximal(pool)
+	ex.TopOut = all[0].V.Compare(ex.OK[0].V) > 0
+	return ex
 }
 
 // c18Reference: empty version -> highest stable; identical string -> that entry; otherwise the query must parse as
